@@ -9,6 +9,7 @@ import (
 	"context"
 	"errors"
 	"fmt"
+	"regexp"
 	"sort"
 	"strings"
 
@@ -312,6 +313,8 @@ var iterProgs = []string{
 	`.[] |= it1`, `.[] |= it0`, `.[] |= iterr`, `del(it0)`, `path(.[] | it1)`, `to_entries | map(it1)`, `map(itve)?`, `map(it0)`, `with_entries(it1)`, `sort_by(it1)`, `group_by(it2)?`, `walk(it1)`, `limit(3; it2, itve, it1)`, `first(it0, it1)`, `[first(it2), last(it2)]`,
 }
 
+var loopy = regexp.MustCompile(`\b(repeat|recurse|range|until|while|inputs|input|limit|combinations|walk|paths|splits|scan|match|env|tick|ticks|it2|itn|itve|itctx|getpath|tostream|fromstream|def)\b|\.\.`)
+
 type valueError struct{ v any }
 
 func (e valueError) Error() string { return "callback error with a value" }
@@ -594,6 +597,18 @@ func prepare(d *Data, maxOut int) (*prepared, *kernel.Violation) {
 	p.ref = run(d, q, p.code, p.w, p.input(), p.vars(), maxOut)
 	if v := protocol(d, &p.ref, "reference run"); v != nil {
 		return p, v
+	}
+	// An iterator that can still be advanced after an error must also get somewhere: a program
+	// without any loop construct that fills the output cap with one and the same error value, call
+	// after call, never reaches its end.
+	if n := len(p.ref.steps); p.ref.outCapHit && n >= 60 && !loopy.MatchString(d.Src) {
+		same := true
+		for _, st := range p.ref.steps[n-50:] {
+			same = same && st.IsErr && st.Val == p.ref.steps[n-1].Val
+		}
+		if same {
+			return p, viol(d, "error-repeats-forever", "reference run: after an error value the iterator returns the same error at every further call (%d outputs, the last 50 identical: %s) and never ends, although the program has no loop", n, kernel.Short(p.ref.steps[n-1].Val))
+		}
 	}
 	if p.code == nil {
 		// compile error through Query.RunWithContext: a one-shot iterator
